@@ -78,11 +78,17 @@ PROPS = {
         tinv=["T_C12_BlockNeverFails"],
     ),
     "C08": dict(
-        family="eco", edge=["roles_q", "allow_q", "market_e"],
-        mc=[("roles_q", 120), ("allow_q", 60), ("market_q", 300)], mc_t=[("roles_t", 600), ("allow_q", 60), ("market_q", 600)],
-        inv=[],
-        step=["C08_Authorised", "C08_Footprint", "C08_SealedStaysSealed"],
-        tinv=[],
+        family="eco",
+        parts=[
+            dict(family="eco", edge=["roles_q", "allow_q", "market_e"],
+                 mc=[("roles_q", 120), ("allow_q", 60), ("market_q", 300)], mc_t=[("roles_t", 600), ("allow_q", 60), ("market_q", 600)],
+                 inv=[], step=["C08_Authorised", "C08_Footprint", "C08_SealedStaysSealed"], tinv=[]),
+            # the data service: resolver manager unless public; only the named resolver changes
+            dict(family="data", mc_module="MC_Data", trace_module="TraceData",
+                 mc=[("data_res_q", 300)], mc_t=[("data_res_q", 300)],
+                 inv=[], step=["C16_ManagerOnly", "C16_Footprint"], tinv=[],
+                 gen=[("data_res_g", 40, 25), ("data_q", 12, 25)], gen_t=[("data_res_g", 400, 30), ("data_q", 100, 30)]),
+        ],
     ),
     "C13": dict(
         family="eco", edge=["bridge_q"],
@@ -129,17 +135,18 @@ PROPS = {
         family="intertx", mc_module="MC_Intertx", trace_module="TraceIntertx",
         mc=[("intertx_q", 120)], mc_t=[("intertx_t", 600)],
         inv=["C20_OwnPort"], step=["C20_Forward"], tinv=["T_C20_NoPanic"],
-        gen=[("intertx_g", 40, 25)], gen_t=[("intertx_g", 400, 30)],
+        gen=[("intertx_g", 120, 30)], gen_t=[("intertx_g", 1200, 40)],
     ),
     "C15": dict(family="iri", mc=[], inv=[], step=[], tinv=[]),
     "C16": dict(
         family="data", mc_module="MC_Data", trace_module="TraceData",
-        mc=[("data_q", 300), ("data_buckets_q", 300), ("data_equal_q", 300)], mc_t=[("data_t", 1500), ("data_buckets_q", 300), ("data_equal_q", 300)],
+        mc=[("data_q", 300), ("data_buckets_q", 300), ("data_equal_q", 300), ("data_res_q", 300)],
+        mc_t=[("data_t", 1500), ("data_buckets_q", 300), ("data_equal_q", 300), ("data_res_q", 300)],
         inv=["C16_IdInjective", "C16_RowsReferToIds"],
-        step=["C16_Stable", "C16_FirstTime", "C16_Responses", "C16_ManagerOnly", "C16_Footprint"],
+        step=["C16_Stable", "C16_FirstTime", "C16_Responses", "C16_ManagerOnly", "C16_Footprint", "C16_Effect"],
         tinv=[],
-        gen=[("data_q", 24, 25), ("data_buckets_q", 24, 25), ("data_equal_q", 16, 25), ("data_inj_q", 16, 25)],
-        gen_t=[("data_q", 200, 30), ("data_buckets_q", 200, 30), ("data_equal_q", 100, 30), ("data_inj_q", 100, 30)],
+        gen=[("data_q", 24, 25), ("data_buckets_q", 24, 25), ("data_equal_q", 16, 25), ("data_inj_q", 16, 25), ("data_res_g", 30, 25)],
+        gen_t=[("data_q", 200, 30), ("data_buckets_q", 200, 30), ("data_equal_q", 100, 30), ("data_inj_q", 100, 30), ("data_res_g", 300, 30)],
     ),
     "C17": dict(
         family="eco", mc=[], level="exploration",
